@@ -107,6 +107,9 @@ def render_atom(a, alias):
     raise ValueError(a)
 
 
+SPACING = ['wide']
+
+
 def render(toks, alias):
     out = []
     for t in toks:
@@ -115,7 +118,12 @@ def render(toks, alias):
         elif t == 'not':
             out.append(ALIAS['not'] if alias else 'not ')
         elif isinstance(t, str):
-            out.append(' ' + (ALIAS.get(t, t) if alias else t) + ' ')
+            if SPACING[0] != 'wide' and t in ('+', '-', '*', '/'):
+                # arithmetic operators written without the space after them ('a -2') or without any space ('a-2'):
+                # where a token ends must not depend on the spacing
+                out.append((' ' if SPACING[0] == 'left' else '') + t)
+            else:
+                out.append(' ' + (ALIAS.get(t, t) if alias else t) + ' ')
         else:
             out.append(render_atom(t, alias))
     return ''.join(out)
@@ -182,6 +190,14 @@ def sequences(t, sd):
         if float(text) != 0:
             seqs.append([V(0), '/', lit])
             seqs.append([V(0), '/', ('im', [lit, V(1)])])
+    # a sign glued to a digit after a number or a closing parenthesis is still a subtraction / addition
+    for op in ('-', '+'):
+        seqs.append([V(0), '+', ('n', 3), op, ('n', 2)])
+        seqs.append([('p', [V(0), '+', ('n', 1)]), op, ('n', 2)])
+        seqs.append([V(0), '+', ('n', 3), op, ('im', [('n', 2), V(1)])])
+        seqs.append([('n', 5), op, ('n', 2), '*', V(0)])
+        seqs.append([V(0), '*', ('p', [V(1), '-', ('n', 1)]), op, ('n', 0.5)])
+        seqs.append([('im', [('n', 2), ('p', [V(0)])]), op, ('n', 4), '+', V(1)])
     # identifiers that merely start with a keyword stay identifiers
     kw = ['andy', 'notx', 'inx', 'orb', 'xory', 'iffy', 'impliesz', 'minx', 'maxy', 'asz', 'forx', 'truex', 'letx', 'not_x', 'falsey', 'Truth', 'solver', 'wherex', 'definex']
     for k in kw:
@@ -305,6 +321,16 @@ def main(prop='C09'):
         except Exception:
             continue
         items.append({'toks': toks, 'alias': alias, 'src': program(toks, alias, False)})
+        glued = any(isinstance(a_, str) and a_ in ('+', '-') and isinstance(b_, tuple) and (b_[0] in ('n', 'lit') or (b_[0] == 'im' and b_[1][0][0] in ('n', 'lit')))
+                    for a_, b_ in zip(toks, toks[1:]))
+        if any(isinstance(x, str) and x in ('+', '-', '*', '/') for x in toks) and (len(items) % 4 == 0 or glued):
+            # the same sequence with the arithmetic operators glued to their right operand / to both operands
+            for sp in ('left', 'none'):
+                SPACING[0] = sp
+                try:
+                    items.append({'toks': toks, 'alias': alias, 'src': program(toks, alias, False)})
+                finally:
+                    SPACING[0] = 'wide'
         if top_is_logic(ref) and rnd.random() < 0.3:
             items.append({'toks': toks, 'alias': not alias, 'src': program(toks, not alias, True)})
     lim = os.environ.get('VERIF_LIMIT')
